@@ -81,6 +81,33 @@ def fmt_affine(d):
 
 
 _COMM = (ast.Add, ast.Mult, ast.BitOr, ast.BitAnd, ast.BitXor)
+_ORIENT = {ast.Lt: ast.Gt, ast.Gt: ast.Lt, ast.LtE: ast.GtE, ast.GtE: ast.LtE, ast.Eq: ast.Eq, ast.NotEq: ast.NotEq}
+_SYM = {ast.Lt: '<', ast.Gt: '>', ast.LtE: '<=', ast.GtE: '>=', ast.Eq: '==', ast.NotEq: '!=', ast.Is: 'is', ast.IsNot: 'is not',
+        ast.In: 'in', ast.NotIn: 'not in'}
+
+
+def same(node, text):
+    """Is `node` the expression `text`, up to commutativity, comparison orientation and redundant parentheses?"""
+    return norm(node) == norm(ast.parse(text, mode='eval').body)
+
+
+def same_any(node, texts):
+    return any(same(node, t) for t in texts)
+
+
+def guard_is(guards, text):
+    """Is the conjunction of `guards` (from guards_of) the condition `text` (an `and` of tests, `not (...)` for negatives)?"""
+    want = ast.parse(text, mode='eval').body
+    wl = want.values if isinstance(want, ast.BoolOp) and isinstance(want.op, ast.And) else [want]
+    got = sorted(norm(t) if pol else f'(not {norm(t)})' for t, pol in guards)
+    # flatten conjunctions inside single guards
+    flat = []
+    for t, pol in guards:
+        if pol and isinstance(t, ast.BoolOp) and isinstance(t.op, ast.And):
+            flat += [norm(v) for v in t.values]
+        else:
+            flat.append(norm(t) if pol else f'(not {norm(t)})')
+    return sorted(flat) == sorted(norm(w) for w in wl)
 
 
 def norm(node):
@@ -103,13 +130,47 @@ def norm(node):
         return f'({norm(node.left)}{sym}{norm(node.right)})'
     if isinstance(node, ast.Constant):
         return repr(node.value)
+    if isinstance(node, ast.Compare) and len(node.ops) == 1 and type(node.ops[0]) in _ORIENT:
+        # orientation-insensitive: constants to the right, otherwise the textually smaller operand first
+        a, b = node.left, node.comparators[0]
+        ta, tb = norm(a), norm(b)
+        op = type(node.ops[0])
+        ca, cb = isinstance(a, ast.Constant), isinstance(b, ast.Constant)
+        if (ca and not cb) or (ca == cb and ta > tb):
+            ta, tb, op = tb, ta, _ORIENT[op]
+        return f'({ta} {_SYM[op]} {tb})'
+    if isinstance(node, ast.Compare):
+        parts = [norm(node.left)]
+        for o, c in zip(node.ops, node.comparators):
+            parts.append(_SYM.get(type(o), type(o).__name__))
+            parts.append(norm(c))
+        return '(' + ' '.join(parts) + ')'
+    if isinstance(node, ast.UnaryOp) and isinstance(node.op, ast.Not):
+        return f'(not {norm(node.operand)})'
+    if isinstance(node, ast.IfExp):
+        return f'({norm(node.body)} if {norm(node.test)} else {norm(node.orelse)})'
+    if isinstance(node, (ast.Tuple, ast.List)):
+        inner = ', '.join(norm(e) for e in node.elts)
+        return ('(' + inner + (',' if len(node.elts) == 1 else '') + ')') if isinstance(node, ast.Tuple) else '[' + inner + ']'
     if isinstance(node, ast.BoolOp) and isinstance(node.op, (ast.And, ast.Or)):
         sym = ' and ' if isinstance(node.op, ast.And) else ' or '
         return '(' + sym.join(sorted(norm(v) for v in node.values)) + ')'
     if isinstance(node, ast.Call):
-        return f'{norm(node.func)}({",".join([norm(a) for a in node.args] + [f"{k.arg}={norm(k.value)}" for k in node.keywords])})'
+        return f'{norm(node.func)}({",".join([norm(a) for a in node.args] + sorted(f"{k.arg}={norm(k.value)}" for k in node.keywords))})'
     if isinstance(node, ast.Subscript) and not isinstance(node.slice, ast.Slice):
         return f'{norm(node.value)}[{norm(node.slice)}]'
+    if isinstance(node, ast.Subscript):
+        sl = node.slice
+        parts = [norm(x) if x is not None else '' for x in (sl.lower, sl.upper)] + ([norm(sl.step)] if sl.step is not None else [])
+        return f'{norm(node.value)}[{":".join(parts)}]'
+    if isinstance(node, ast.Attribute):
+        return f'{norm(node.value)}.{node.attr}'
+    if isinstance(node, ast.Starred):
+        return f'*{norm(node.value)}'
+    if isinstance(node, ast.GeneratorExp) or isinstance(node, ast.ListComp) or isinstance(node, ast.SetComp):
+        gens = ' '.join(f'for {norm(g.target)} in {norm(g.iter)}' + ''.join(f' if {norm(c)}' for c in g.ifs) for g in node.generators)
+        br = {ast.GeneratorExp: '()', ast.ListComp: '[]', ast.SetComp: '{}'}[type(node)]
+        return f'{br[0]}{norm(node.elt)} {gens}{br[1]}'
     return ast.unparse(node)
 
 
@@ -201,3 +262,68 @@ def guards_of(node, fn):
 
 def guard_text(guards):
     return ' and '.join((ast.unparse(t) if pol else f'not ({ast.unparse(t)})') for t, pol in guards) or 'True'
+
+
+# -- inlining of single-assignment locals -------------------------------------------------------
+
+def single_defs(fn):
+    """{local name: value expr} for names assigned exactly once in fn (plain `name = expr`, not in a loop target, not
+    augmented, not a parameter) -- the names that can be replaced by their definition without changing meaning
+    as long as the definition's own operands are not reassigned in between (checked by the caller where it matters)."""
+    count, val = {}, {}
+    params = {a.arg for a in fn.args.posonlyargs + fn.args.args + fn.args.kwonlyargs}
+    for n in ast.walk(fn):
+        if isinstance(n, ast.Assign):
+            for t in n.targets:
+                for nm in ast.walk(t):
+                    if isinstance(nm, ast.Name):
+                        count[nm.id] = count.get(nm.id, 0) + 1
+            if len(n.targets) == 1 and isinstance(n.targets[0], ast.Name):
+                val[n.targets[0].id] = n.value
+        elif isinstance(n, (ast.AugAssign, ast.AnnAssign)):
+            for nm in ast.walk(n.target):
+                if isinstance(nm, ast.Name):
+                    count[nm.id] = count.get(nm.id, 0) + 2
+        elif isinstance(n, (ast.For, ast.comprehension)):
+            for nm in ast.walk(n.target):
+                if isinstance(nm, ast.Name):
+                    count[nm.id] = count.get(nm.id, 0) + 2
+        elif isinstance(n, ast.With):
+            for it in n.items:
+                if it.optional_vars is not None:
+                    for nm in ast.walk(it.optional_vars):
+                        if isinstance(nm, ast.Name):
+                            count[nm.id] = count.get(nm.id, 0) + 2
+    return {k: v for k, v in val.items() if count.get(k) == 1 and k not in params}
+
+
+class _Inline(ast.NodeTransformer):
+    def __init__(self, defs, depth=0):
+        self.defs, self.depth = defs, depth
+
+    def visit_Name(self, node):
+        if isinstance(node.ctx, ast.Load) and node.id in self.defs and self.depth < 8:
+            import copy as _copy
+            sub = _copy.deepcopy(self.defs[node.id])
+            return _Inline({k: v for k, v in self.defs.items() if k != node.id}, self.depth + 1).visit(sub)
+        return node
+
+
+def inline(fn, expr):
+    """`expr` with the single-assignment locals of `fn` replaced by their definitions (recursively)."""
+    import copy as _copy
+    return _Inline(single_defs(fn)).visit(_copy.deepcopy(expr))
+
+
+def same_inlined(fn, expr, text):
+    """Does `expr`, after inlining fn's single-assignment locals, equal `text` (written in terms of parameters/globals)?"""
+    return norm(inline(fn, expr)) == norm(ast.parse(text, mode='eval').body)
+
+
+def unpack_targets(fn, call_pattern_pred):
+    """Names bound by `a, b, c = <call>` where pred(call) holds: list of target names (or None)."""
+    for n in ast.walk(fn):
+        if isinstance(n, ast.Assign) and len(n.targets) == 1 and isinstance(n.targets[0], (ast.Tuple, ast.List)) \
+                and isinstance(n.value, ast.Call) and call_pattern_pred(n.value):
+            return [t.id if isinstance(t, ast.Name) else None for t in n.targets[0].elts]
+    return None
